@@ -1,4 +1,4 @@
-import BumpVerif.Proofs.Fast
+import BumpVerif.Proofs.Frame
 import BumpVerif.Props.GenFacts
 /-!
 # C04 — returned pointers honour the requested and the minimum alignment
@@ -14,6 +14,21 @@ theorem fast_aligned (M : Nat) (c : Chunk) (sz al p : Nat)
     (h : allocFast M c sz al = some p) : al ∣ p ∧ M ∣ p :=
   let ⟨_, _, h3, h4⟩ := allocFast_ok M c sz al p hM hA hdp hptr hMp h
   ⟨h3, h4⟩
+
+/-- Every allocation flavour (fast path, slow path with a fresh chunk, fallible or not), at every
+well-formed arena state — chunk-less included — returns a pointer aligned to the request and to
+`MIN_ALIGN`, whatever chunk base the allocator returned. -/
+theorem alloc_aligned {E sz al p} (f : Bool) (s : St) (hE : EnvOK E) (h : ArenaWF E s.a)
+    (hA : IsPow2 al) (hlay : sz + al ≤ 2 ^ 63) (hok : (allocMaybe E f sz al s).2 = .ok p) :
+    al ∣ p ∧ s.a.M ∣ p := by
+  obtain ⟨_, ha, hm, _⟩ := (allocMaybe_spec f s hE h hA hlay).ok p hok
+  exact ⟨ha, hm⟩
+
+/-- `dealloc` keeps the finger aligned to `MIN_ALIGN` (part of `ArenaWF`) -/
+theorem dealloc_keeps_finger_aligned {E p sz} (s : St) (hE : EnvOK E) (h : ArenaWF E s.a)
+    (hblk : (s.a.cur E).ptr = p → p + sz ≤ (s.a.cur E).footer) :
+    ∀ c ∈ (dealloc E p sz s).1.a.chunks, (dealloc E p sz s).1.a.M ∣ c.ptr :=
+  fun c hc => ((dealloc_spec s hE h hblk).2.1.chunks c hc).ptr_al
 
 /-- Constructors refuse an unsupported minimum alignment with a panic. -/
 theorem ctor_refuses (E M cap : Nat) (f : Bool) (s : St)
@@ -38,5 +53,7 @@ example : allocFast 8 ⟨4096, 560, 16, 4608, 512⟩ 13 4 = some 4592 := by deci
 end Bump.C04
 
 #print axioms Bump.C04.fast_aligned
+#print axioms Bump.C04.alloc_aligned
+#print axioms Bump.C04.dealloc_keeps_finger_aligned
 #print axioms Bump.C04.ctor_refuses
 #print axioms Bump.C04.static_aligned
